@@ -203,6 +203,17 @@ func sysmShowView(ms []FetchedMsg) string {
 	return strings.Join(parts, "+")
 }
 
+// sysmIssued appends the pseudo-response `I` when the tagged completion carries [EXPUNGEISSUED].
+func sysmIssued(resps string, rep Reply) string {
+	if rep.Status != "OK" || !strings.Contains(rep.Tagged, "[EXPUNGEISSUED]") {
+		return resps
+	}
+	if resps == "-" {
+		return "I"
+	}
+	return resps + ";I"
+}
+
 func sysmStatus(rep Reply) string {
 	switch rep.Status {
 	case "OK":
@@ -406,7 +417,8 @@ func (r *sysmRunner) step(w []string) error {
 		if op == "" {
 			return fmt.Errorf("bad step %v", w)
 		}
-		simple(fmt.Sprintf("STORE %s %s (%s)", w[2], op, sysmFlagList(w[4], " ")))
+		rep := c.Cmd(fmt.Sprintf("STORE %s %s (%s)", w[2], op, sysmFlagList(w[4], " ")))
+		emit(sysmStatus(rep) + ":" + sysmIssued(sysmCanonResps(rep.Untagged), rep))
 	case "EXPUNGE":
 		simple("EXPUNGE")
 	case "COPY":
@@ -426,7 +438,7 @@ func (r *sysmRunner) step(w []string) error {
 			emit("hang")
 			return nil
 		}
-		emit("P:" + v + "/" + rest)
+		emit("P:" + v + "/" + sysmIssued(rest, rep))
 	default:
 		return fmt.Errorf("bad step %v", w)
 	}
@@ -589,6 +601,7 @@ func sysmGenHistory(r *Rng, st *Stats) string {
 		}
 	}
 	ovt := 0
+	patterns := 0
 	for len(out) < steps {
 		i := r.Intn(n)
 		force := -1
@@ -601,6 +614,64 @@ func sysmGenHistory(r *Rng, st *Stats) string {
 			}
 		}
 		s := &sess[i]
+		// C05 trigger shapes (both inside NoOvertake: the observer runs no command while updates are withheld)
+		if patterns < 2 && force < 0 && r.Chance(1, 7) {
+			a, b := -1, -1
+			for x := range sess {
+				for y := range sess {
+					if x != y && sess[x].sel >= 0 && sess[x].sel == sess[y].sel && !sess[x].held && !sess[y].held {
+						a, b = x, y
+					}
+				}
+			}
+			if a >= 0 {
+				mb := sess[a].sel
+				name := sysmMboxNames[mb]
+				patterns++
+				if r.Bool() {
+					// a removal + re-add is held back by a non-permitting flush together with the EXISTS of a NEW message;
+					// the new message is then removed: its EXPUNGE must still reach the observer
+					st.Inc("pattern.held-readd-then-new-removed")
+					add(fmt.Sprintf("S%d APPEND %s -", b, name))
+					created++
+					add(fmt.Sprintf("S%d NOOP", b))
+					add(fmt.Sprintf("S%d NOOP", a))
+					add(fmt.Sprintf("S%d COPY 1 %s", b, name))
+					add(fmt.Sprintf("C CREATE %s -", name))
+					created++
+					k := created
+					if r.Bool() {
+						add(fmt.Sprintf("S%d PROBE", a))
+					} else {
+						add(fmt.Sprintf("S%d STORE 1 %s %s", a, Pick(r, []string{"+", "+s", "-"}), Pick(r, sysmStoreFlags)))
+					}
+					add(fmt.Sprintf("C BOXES m%d -", k))
+					if r.Bool() {
+						add(fmt.Sprintf("S%d PROBE", a))
+					}
+					add(fmt.Sprintf("S%d NOOP", a))
+					count[mb]++
+					sess[a].seen, sess[b].seen = count[mb], count[mb]
+				} else {
+					// a message is added and removed while the observer has applied neither update
+					st.Inc("pattern.add-remove-while-held")
+					add(fmt.Sprintf("X HOLD %d", a))
+					if r.Bool() {
+						add(fmt.Sprintf("C CREATE %s -", name))
+						created++
+						add(fmt.Sprintf("C BOXES m%d -", created))
+					} else {
+						add(fmt.Sprintf("S%d APPEND %s \\deleted", b, name))
+						created++
+						add(fmt.Sprintf("S%d EXPUNGE", b))
+					}
+					add(fmt.Sprintf("X RELEASE %d %d", a, Pick(r, []int{-1, -1, 1})))
+					add(fmt.Sprintf("S%d NOOP", a))
+					add(fmt.Sprintf("X RELEASE %d -1", a))
+				}
+				continue
+			}
+		}
 		if s.sel < 0 {
 			mb := r.Intn(nbox)
 			if r.Chance(3, 4) {
